@@ -143,6 +143,27 @@ class GenEv:
                 elif p["k"] == "bind":
                     default = self.gen(a["body"], env2)
                     break
+                elif p["k"] == "por":
+                    # A(_) | B | C(_) => body: one arm per variant (no bindings: the payloads are ignored)
+                    labels = []
+                    for sp in p["pats"]:
+                        while sp["k"] in ("pref", "pderef"):
+                            sp = sp["pat"]
+                        if sp["k"] == "ptuplestruct" and all(q["k"] == "wild" for q in sp["pats"]):
+                            labels.append(sp["res"]["path"])
+                        elif sp["k"] == "pstruct" and not sp["fields"]:
+                            labels.append(sp["res"]["path"])
+                        elif sp["k"] == "pexpr" and sp["e"]["k"] == "path":
+                            labels.append(sp["e"]["path"])
+                        else:
+                            labels = None
+                            break
+                    if labels is None:
+                        arms.append(["?por", [["opaque", "pattern"]]])
+                        continue
+                    body = self.gen(a["body"], env2)
+                    arms.extend([lab, body] for lab in labels)
+                    continue
                 else:
                     arms.append(["?" + p["k"], [["opaque", "pattern"]]])
                     continue
@@ -191,8 +212,65 @@ class GenEv:
         if k == "mcall":
             if e.get("path") == "core::result::Result::<T, E>::and_then":
                 return self.fuse(self.gen(e["recv"], env) + self.gen(e["args"][0], env), env)
+            local = e.get("resolved_local") if e.get("resolved") else e.get("local")
+            if local and e["args"] and self.is_out(e["args"][-1], env):
+                # x.write_into(out): a method of the crate that runs a serializer on `out`
+                callee = self.F.fn(e.get("resolved") or e.get("path"))
+                if callee is not None and len(callee["params"]) == len(e["args"]) + 1 and self.depth <= 30:
+                    self.called.add(callee["path"])
+                    env2 = {}
+                    self.ev.bind_pat(callee["params"][0], self.sym(e["recv"], env), env2)
+                    for p_, a_ in zip(callee["params"][1:-1], e["args"][:-1]):
+                        self.ev.bind_pat(p_, self.sym(a_, env), env2)
+                    if callee["params"][-1]["k"] == "bind":
+                        env2[callee["params"][-1]["id"]] = "__out__"
+                    self.depth += 1
+                    try:
+                        return self.gen(callee["hir"], env2)
+                    finally:
+                        self.depth -= 1
             return [["opaque", "method " + e["name"]]]
         return [["opaque", "generator expr " + k]]
+
+    def run_into_vec(self, e, env, depth=0):
+        """e : Result<Vec<u8>, GenError>.  If e runs one serializer on a fresh Vec and returns the bytes written
+        (gen_simple(G, Vec::new()), gen(G, Vec::new()).map(|(b, _)| b), or a helper of the crate doing that) -> gterm of G; else None"""
+        e = strip(e)
+        if depth > 6:
+            return None
+        def fresh_vec(x):
+            x = strip(x)
+            return x["k"] == "call" and path_of(x["f"]) in ("alloc::vec::Vec::<T>::new", "alloc::vec::Vec::<T>::with_capacity") or \
+                (x["k"] == "call" and (path_of(x["f"]) or "").endswith("Default::default") and x.get("ty", "").startswith("alloc::vec::Vec<u8"))
+        if e["k"] == "call" and path_of(e["f"]) == CF + "internal::gen_simple" and len(e["args"]) == 2 and fresh_vec(e["args"][1]):
+            return self.gen(e["args"][0], env)
+        if e["k"] == "mcall" and e.get("path") == "core::result::Result::<T, E>::map" and len(e["args"]) == 1:
+            r = strip(e["recv"])
+            clo = strip_ref(e["args"][0])
+            if r["k"] == "call" and path_of(r["f"]) == CF + "internal::gen" and len(r["args"]) == 2 and fresh_vec(r["args"][1]) and clo["k"] == "closure" and len(clo["params"]) == 1:
+                env2 = {}
+                self.ev.bind_pat(clo["params"][0], ["tuple", [["written"], ["count"]]], env2)
+                if self.ev.sym(clo["body"], env2, {}) == ["written"]:
+                    return self.gen(r["args"][0], env)
+            return None
+        if e["k"] == "call":
+            f = strip(e["f"])
+            if f["k"] == "path" and f.get("dk") in ("Fn", "AssocFn") and (f.get("resolved_local") if f.get("resolved") else f.get("local")):
+                callee = self.F.fn(f.get("resolved") or f["path"])
+                if callee is not None and len(callee["params"]) == len(e["args"]):
+                    env2 = {}
+                    for p_, a_ in zip(callee["params"], e["args"]):
+                        if p_["k"] != "bind":
+                            return None
+                        a2 = strip_ref(a_)
+                        if "SerializeFn" in (a2.get("ty") or "") or a2["k"] in ("closure",) or (a2["k"] == "call" and "impl" in (a2.get("ty") or "")):
+                            env2[p_["id"]] = GenVal(self.gen(a_, env))
+                        else:
+                            env2[p_["id"]] = self.sym(a_, env)
+                    return self.run_into_vec(callee["hir"], env2, depth + 1)
+        if e["k"] == "block" and not e["stmts"] and e["expr"] is not None:
+            return self.run_into_vec(e["expr"], env, depth)
+        return None
 
     def call_local(self, path, args, env):
         callee = self.F.fn(path)
@@ -295,6 +373,11 @@ class GenEv:
             env2 = dict(env)
             self.ev.bind_pat(f["params"][0], arg, env2)
             return self.gen(f["body"], env2)
+        if f["k"] == "path" and path_of(f) in EMIT:
+            bits, en = EMIT[path_of(f)]
+            return [["emit", bits, en, arg]]
+        if f["k"] == "path" and path_of(f) == CF + "combinator::slice":
+            return [["bytes", arg]]
         if f["k"] == "path" and f.get("local"):
             callee = self.F.fn(f.get("resolved") or f["path"])
             if callee is not None:
@@ -305,12 +388,24 @@ class GenEv:
         return [["opaque", "function value"]]
 
     def repeat_iter(self, it, env):
+        """all(xs.iter()[.copied()][.map(value fn)]*.map(serializer fn)): one run of the serializer per element, on the
+        element passed through the value functions"""
+        IT = "core::iter::traits::iterator::Iterator::"
         it = strip(it)
-        if it["k"] == "mcall" and it.get("path") == "core::iter::traits::iterator::Iterator::map":
-            src = strip(it["recv"])
-            if src["k"] == "mcall" and src.get("path") == "core::slice::<impl [T]>::iter":
-                return [["repeat", self.sym(src["recv"], env), self.apply_fn(it["args"][0], ["elem"], env)]]
-        return [["opaque", "iterator"]]
+        fns = []
+        while it["k"] == "mcall" and it.get("path") in (IT + "map", IT + "copied", IT + "cloned"):
+            if it["path"] == IT + "map":
+                fns.append(it["args"][0])
+            it = strip(it["recv"])
+        if not (fns and it["k"] == "mcall" and it.get("path") == "core::slice::<impl [T]>::iter"):
+            return [["opaque", "iterator"]]
+        arg = ["elem"]
+        for vf in reversed(fns[1:]):
+            try:
+                arg = self.ev.fn_value(vf, env, {})(arg)
+            except Exception:
+                return [["opaque", "iterator"]]
+        return [["repeat", self.sym(it["recv"], env), self.apply_fn(fns[0], arg, env)]]
 
     def fuse(self, steps, env):
         """emit(genlen X) followed by bytes(genbuf X) -> lenp"""
